@@ -29,7 +29,7 @@ def event(rng):
 
 def port(rng):
     d = rng.choice(['provides', 'requires', 'requires'])
-    return [rng.choice(['api', 'hal', 'hal2', 'p', 'Api', 'cord']), ids(rng, 1, 3), d, d == 'requires' and rng.random() < 0.25]
+    return [rng.choice(['api', 'hal', 'hal2', 'p', 'Api', 'cord']), ids(rng, 1, 3), d, rng.random() < (0.25 if d == 'requires' else 0.1)]   # the grammar allows `injected` on either direction
 
 
 def typedecl(rng):
